@@ -66,7 +66,7 @@ def draw_ctx_factory(cap_mass):
 
 
 def run_molecule(text, sched_kwargs, props=("C04", "C05", "C06", "C07", "C08"), embed="stub", embed_fault_at=None,
-                 forced_draws=None, cap_mass=None, wall=60, expect_complete=True, ast=None, keep_world=True, sched_obj=None, draw_ctx_fn=None, reuse_obj=None):
+                 forced_draws=None, cap_mass=None, wall=60, expect_complete=True, ast=None, keep_world=True, sched_obj=None, draw_ctx_fn=None, reuse_obj=None, entry="molecule"):
     """Generate one molecule from `text` under the simulator.  Returns RunOutcome."""
     g = boot.load()
     out = RunOutcome()
@@ -90,7 +90,13 @@ def run_molecule(text, sched_kwargs, props=("C04", "C05", "C06", "C07", "C08"), 
             out.phase = "parse"
             try:
                 # `reuse_obj`: generate again from an object parsed earlier (repeated generation from one parsed molecule)
-                mol = reuse_obj if reuse_obj is not None else g.Molecule(text)
+                if reuse_obj is not None:
+                    mol = reuse_obj
+                elif entry == "stochastic":
+                    # README: a stochastic object with empty terminals can be used directly (user-facing class)
+                    mol = g.Stochastic(text, 0)
+                else:
+                    mol = g.Molecule(text)
             except SimAbort:
                 raise
             except Exception as exc:
